@@ -594,6 +594,79 @@ def eval_model(pid, cases, per=60, timeout=1200):
     return res, ""
 
 
+# ---------------------------------------------------------------------------------------
+# the reference interpreters: Coq (model/Interp.v, the specification side of C01 / C02 / C07) against Python (oracle.py)
+# ---------------------------------------------------------------------------------------
+def g_words(words):
+    return g_list(['("%s", Qmake (%d) %d)' % (k, v.numerator, v.denominator) for k, v in words])
+
+
+def interp_crosscheck(pid, programs, timeout=900):
+    """programs: list of programs, each a list of tokenized lines [(letter, Fraction), ...] as the IMPLEMENTATION emitted them.
+    Reads every program with the Coq interpreter that the pid's theorems are stated against and with the Python oracle the
+    harness judges the implementation with; returns (number compared, first difference or None)."""
+    import oracle as O
+    # rationals are printed as (numerator, denominator) pairs and options as lists: Coq prints some Q values in decimal / hexadecimal notation
+    defs = ("Definition qp (q : Q) : Z * Z := (Qnum (Qred q), Zpos (Qden (Qred q))).\n"
+            "Definition oq (o : option Q) := match o with Some q => [qp q] | None => [] end.\n"
+            "Definition oz (o : option Z) := match o with Some z => [z] | None => [] end.\n"
+            "Definition ax (a : option (Q * nat)) := match a with Some (q, n) => [(qp q, n)] | None => [] end.\n")
+    if pid == "C01":
+        expr = "(let p := pinterp_lines pmach0 L in (p_rel p, ax (p_x p), ax (p_y p), ax (p_z p)))"
+    elif pid == "C02":
+        expr = "(let f := scan_lines flags0 L in (f_tool f, f_cool f, f_ok f))"
+    else:
+        expr = ("(let m := interp_lines mach0 L in (m_tool m, m_start m, oq (m_S m), m_cool m, oq (m_T m), oq (m_F m), m_rel m, (oz (m_em m), oz (m_fm m), oz (m_lu m), oz (m_pl m)), "
+                "(oq (m_bed m), oq (m_hot m), oq (m_cha m)), %s))" % g_list(['oq (param_lines "%s" None L)' % k for k in SNAP_LETTERS]))
+    files = []
+    per = 40
+    for i in range(0, len(programs), per):
+        body = "Open Scope string_scope.\n" + defs
+        for prog in programs[i:i + per]:
+            body += "Eval vm_compute in (let L := %s in %s).\n" % (g_list([g_words(l) for l in prog]), expr)
+        files.append(("interp_%d" % (i // per), body))
+    vals = []
+    for rc, out in coq_eval_many(pid, files, "From GS Require Import model.Num model.Builder model.Interp model.InterpParams.\n", timeout=timeout):
+        if rc != 0:
+            return 0, "the reference interpreter (coq/model/Interp.v) could not be evaluated: " + out[-800:]
+        vals.extend(parse_evals(out))
+    if len(vals) != len(programs):
+        return 0, "the reference interpreter (coq/model/Interp.v) could not be evaluated: %d results for %d programs" % (len(vals), len(programs))
+
+    def q_(pr):
+        return Fraction(int(pr[0]), int(pr[1]))
+
+    def opt(l, conv):
+        return conv(l[0]) if l else None
+
+    n = 0
+    for prog, val in zip(programs, vals):
+        m = O.Machine()
+        for l in prog:
+            m.line(l)
+        t = parse_term(val)
+        if pid == "C01":
+            rel, px_, py_, pz_ = t
+            got = (rel == "true", [opt(a, lambda pr: (Fraction(int(pr[0]), int(pr[1])), int(pr[2]))) for a in (px_, py_, pz_)])     # ((n, d), k) prints as (n, d, k)
+            want = (m.rel, [None if m.pos[a] is None else (Fraction(m.pos[a]), m.rc[a] + 1) for a in "XYZ"])
+        elif pid == "C02":
+            got = tuple(x == "true" for x in t)
+            want = (m.tool, m.cool, not m.bad)
+        else:
+            tool, start, s_, cool, t_, f_, rel, modes, temps, pars = t
+            got = (tool == "true", int(start), opt(s_, q_), int(cool), opt(t_, q_), opt(f_, q_), rel == "true",
+                   tuple(opt(x, int) for x in modes), tuple(opt(x, q_) for x in temps), [opt(x, q_) for x in pars])
+            want = (m.tool, m.start or 0, m.S, m.coolmode or 0, None if m.T is None else Fraction(m.T), m.feed, m.rel,
+                    ({None: None, "absolute": 82, "relative": 83}[m.emode], {None: None, "1/time": 93, "units/min": 94, "units/rev": 95}[m.fmode],
+                     {None: None, "inches": 20, "millimeters": 21}[m.units], {None: None, "xy": 17, "zx": 18, "yz": 19}[m.plane]),
+                    (m.temps["bed"], m.temps["hotend"], m.temps["chamber"]), [m.params.get(k) for k in SNAP_LETTERS])
+        if got != want:
+            return n, "the Coq reference interpreter and the Python oracle read an emitted program differently: Coq %r, oracle %r; program (last lines) %r" % (
+                got, want, [" ".join("%s%s" % (k, float(v)) for k, v in l) for l in prog[-6:]])
+        n += 1
+    return n, None
+
+
 def compare_step(mi, ii, fields=None, tol=None):
     """first difference between a model step and an implementation step, or None"""
     if mi["exc"] != ii["exc"]:
